@@ -19,7 +19,9 @@ def _alarm(signum, frame):
 def _worker(args):
     modname, funcname, cases, tmo = args
     import importlib
+    import warnings
     import core
+    warnings.simplefilter('ignore')
     core.setup_paths()
     mod = importlib.import_module(modname)
     f = getattr(mod, funcname)
